@@ -132,6 +132,9 @@ func run(c *hc.Ctx) {
 	if want("grad") {
 		g.gradients()
 	}
+	if want("gradlookup") {
+		g.gradLookup()
+	}
 }
 
 // ---- 1a. fixed point ----
@@ -474,7 +477,6 @@ func (g *gen) onePixelCase(it int) {
 	var descr []string
 	unit0 := math.Min(W, H) / 20 // polygons live in [-8,8]^2
 	ndraws := 1 + c.Intn(3)
-	anyOpen := false
 	checkDashZone := false
 	viewKinds := ""
 	for k := 0; k < ndraws; k++ {
@@ -558,7 +560,7 @@ func (g *gen) onePixelCase(it int) {
 		if c.Chance(0.3) { // quarter-millimetre coordinates
 			p = p.Scale(0.25*float64(3+c.Intn(3)), 0.25*float64(3+c.Intn(3)))
 		}
-		if c.Chance(0.06) { // an OPEN path: fills are implicitly closed
+		if c.Chance(0.12) { // an OPEN path: fills are implicitly closed
 			if cs1, ok := hc.Contours(p); ok {
 				q := &canvas.Path{}
 				for _, ct := range cs1 {
@@ -594,7 +596,6 @@ func (g *gen) onePixelCase(it int) {
 			col := g.colour(used)
 			ctx.SetFillColor(col)
 			draws = append(draws, drawRec{z: z, rule: rule, polys: mapContours(M, cs0), col: col, what: "fill", open: open})
-			anyOpen = anyOpen || open
 			d += fmt.Sprintf(" fill=%v", col)
 			c.Count(fmt.Sprintf("draw fill rule=%d class=%d open=%v", rule, class, open))
 		}
@@ -726,9 +727,6 @@ func (g *gen) onePixelCase(it int) {
 	if checkDashZone {
 		sfx += "+checkdash-units"
 	}
-	if anyOpen {
-		sfx += "+open"
-	}
 	if sfx != "" {
 		sfx = " " + sfx
 	}
@@ -773,11 +771,8 @@ func stopsAt(st []gstop, t float64) [4]float64 {
 	return f(st[len(st)-1].col)
 }
 
-// colour range of the gradient over positions within `slack` (mm) of p
-func gradRange(st []gstop, s, e hc.P2, p hc.P2, slack float64) (lo, hi [4]float64) {
-	d := e.Sub(s)
-	t0 := p.Sub(s).Dot(d) / d.Dot(d)
-	dt := slack / d.Len()
+// colour range of the gradient over parameters within dt of t0
+func gradRangeT(st []gstop, t0, dt float64) (lo, hi [4]float64) {
 	for k := 0; k < 4; k++ {
 		lo[k], hi[k] = 1e9, -1e9
 	}
@@ -796,6 +791,27 @@ func gradRange(st []gstop, s, e hc.P2, p hc.P2, slack float64) (lo, hi [4]float6
 	return
 }
 
+// gradient geometry, evaluated independently of the library: parameter at p and |dt/dp|
+type ggeom struct {
+	radial bool
+	s, e   hc.P2   // linear: start, end; radial: s = common centre
+	r0, r1 float64 // radial (concentric)
+}
+
+func (g ggeom) t(p hc.P2) float64 {
+	if g.radial {
+		return (p.Sub(g.s).Len() - g.r0) / (g.r1 - g.r0)
+	}
+	d := g.e.Sub(g.s)
+	return p.Sub(g.s).Dot(d) / d.Dot(d)
+}
+func (g ggeom) slope() float64 {
+	if g.radial {
+		return 1 / math.Abs(g.r1-g.r0)
+	}
+	return 1 / g.e.Sub(g.s).Len()
+}
+
 func inRange(px color.RGBA, lo, hi [4]float64, tol float64) bool {
 	v := [4]float64{float64(px.R), float64(px.G), float64(px.B), float64(px.A)}
 	for k := 0; k < 4; k++ {
@@ -804,6 +820,67 @@ func inRange(px color.RGBA, lo, hi [4]float64, tol float64) bool {
 		}
 	}
 	return true
+}
+
+// recGrad is a Gradient that records where it is evaluated and answers with the call number as colour
+type recGrad struct{ calls *[][2]float64 }
+
+func (r recGrad) SetView(canvas.Matrix) canvas.Gradient            { return r }
+func (r recGrad) SetColorSpace(canvas.ColorSpace) canvas.Gradient { return r }
+func (r recGrad) At(x, y float64) color.RGBA {
+	idx := len(*r.calls)
+	*r.calls = append(*r.calls, [2]float64{x, y})
+	return color.RGBA{uint8(idx >> 16), uint8(idx >> 8), uint8(idx), 255}
+}
+
+// gradLookup: which canvas point does pixel (i, j) evaluate its gradient at? ('=' against the Lean model)
+func (g *gen) gradLookup() {
+	c := g.c
+	n := c.N / 20
+	if n < 4 {
+		n = 4
+	}
+	for it := 0; it < n; it++ {
+		dpmm := g.res()
+		wpxT, hpxT := 12+c.Intn(50), 10+c.Intn(40)
+		W, H := math.Round(float64(wpxT)/dpmm*4)/4, math.Round(float64(hpxT)/dpmm*4)/4
+		if W*dpmm < 4 || H*dpmm < 4 {
+			continue
+		}
+		cv := canvas.New(W, H)
+		ctx := canvas.NewContext(cv)
+		var calls [][2]float64
+		ctx.SetFillGradient(recGrad{&calls})
+		ctx.DrawPath(0, 0, canvas.Rectangle(W, H))
+		var img *image.RGBA
+		if msg := hc.Try(func() { img = rasterizer.Draw(cv, canvas.DPMM(dpmm), canvas.LinearColorSpace{}) }); msg != "" {
+			c.Fail("panic:Draw:"+strings.SplitN(msg, "\n", 2)[0], "rasterizer.Draw panicked: "+msg, map[string]any{"W": W, "H": H, "dpmm": dpmm})
+			continue
+		}
+		wpx, hpx := img.Bounds().Dx(), img.Bounds().Dy()
+		for k := 0; k < 25; k++ {
+			i, j := 1+c.Intn(wpx-2), 1+c.Intn(hpx-2)
+			px := img.RGBAAt(i, j)
+			idx := int(px.R)<<16 | int(px.G)<<8 | int(px.B)
+			if px.A != 255 || idx >= len(calls) {
+				c.Count("gradlookup: pixel not fully covered")
+				continue
+			}
+			a := calls[idx]
+			c.Case(fmt.Sprintf("GRAD %d %s %d %d", hpx, hc.H(dpmm), i, j), "=", hc.Hs(a[0], a[1]))
+			c.Evals++
+			if math.Abs(a[0]*dpmm-(float64(i)+0.5)) > 1e-6 || math.Abs((float64(hpx)-a[1]*dpmm)-(float64(j)+0.5)) > 1e-6 {
+				c.Fail("gradient-lookup-not-pixel-centre", fmt.Sprintf("pixel (%d,%d) of a %d px high image at %v px/mm evaluates its gradient at (%v,%v): pixel position (%v,%v)", i, j, hpx, dpmm, a[0], a[1], a[0]*dpmm, float64(hpx)-a[1]*dpmm),
+					map[string]any{"W": W, "H": H, "dpmm": dpmm, "pixel": []int{i, j}})
+			}
+			if dpmm < 1 {
+				c.Count("gradlookup dpmm<1")
+			} else {
+				c.Count("gradlookup dpmm>=1")
+			}
+			c.Distinct(fmt.Sprintf("gl %v %d %d %d", dpmm, hpx, i, j))
+		}
+	}
 }
 
 func (g *gen) gradients() {
@@ -825,19 +902,34 @@ func (g *gen) gradients() {
 			space = canvas.SRGBColorSpace{}
 		}
 		var s, e hc.P2
-		dir := c.Intn(3)
+		dir := c.Intn(4) // 0 horizontal, 1 vertical, 2 diagonal, 3 radial (concentric)
+		geo := ggeom{}
 		switch dir {
 		case 0: // horizontal
 			s, e = hc.P2{X: float64(c.Intn(4)), Y: 0}, hc.P2{X: W - float64(c.Intn(4)), Y: 0}
 		case 1: // vertical
 			s, e = hc.P2{X: 0, Y: float64(c.Intn(3))}, hc.P2{X: 0, Y: H - float64(c.Intn(3))}
-		default:
+		case 2:
 			s, e = hc.P2{X: float64(c.Intn(4)), Y: float64(c.Intn(3))}, hc.P2{X: W - float64(c.Intn(4)), Y: H - float64(c.Intn(3))}
+		default:
+			s = hc.P2{X: W * (0.25 + 0.5*c.Float()), Y: H * (0.25 + 0.5*c.Float())}
+			e = s
+			geo.radial, geo.r0, geo.r1 = true, float64(c.Intn(2))*H/8, math.Max(W, H)*(0.4+0.4*c.Float())
 		}
-		if c.Chance(0.2) {
+		if dir < 3 && c.Chance(0.2) {
 			s, e = e, s
 		}
-		gr := canvas.NewLinearGradient(canvas.Point{X: s.X, Y: s.Y}, canvas.Point{X: e.X, Y: e.Y})
+		geo.s, geo.e = s, e
+		var gr canvas.Gradient
+		var grStops *canvas.Stops
+		var add func(float64, color.RGBA)
+		if geo.radial {
+			rg := canvas.NewRadialGradient(canvas.Point{X: s.X, Y: s.Y}, geo.r0, canvas.Point{X: s.X, Y: s.Y}, geo.r1)
+			gr, grStops, add = rg, &rg.Stops, rg.Add
+		} else {
+			lg := canvas.NewLinearGradient(canvas.Point{X: s.X, Y: s.Y}, canvas.Point{X: e.X, Y: e.Y})
+			gr, grStops, add = lg, &lg.Stops, lg.Add
+		}
 		used := map[color.RGBA]bool{}
 		var st []gstop
 		ns := 2 + c.Intn(2)
@@ -845,25 +937,41 @@ func (g *gen) gradients() {
 			off := float64(k) / float64(ns-1)
 			col := g.colour(used)
 			st = append(st, gstop{off, col})
-			gr.Add(off, col)
+			add(off, col)
 		}
 		cv := canvas.New(W, H)
 		ctx := canvas.NewContext(cv)
-		ctx.SetFillGradient(gr)
-		ctx.DrawPath(0, 0, canvas.Rectangle(W, H))
-		replay := map[string]any{"W": W, "H": H, "dpmm": dpmm, "linear": linear, "start": []float64{s.X, s.Y}, "end": []float64{e.X, e.Y}, "stops": fmt.Sprint(st)}
+		// painted region: the whole canvas (fill) or a horizontal band (stroke of the middle line)
+		stroke := c.Chance(0.35)
+		bandLo, bandHi := 0.0, H
+		if stroke {
+			ctx.SetFillColor(canvas.Transparent)
+			ctx.SetStrokeGradient(gr)
+			ctx.SetStrokeWidth(0.6 * H)
+			ctx.SetStrokeCapper(canvas.ButtCap)
+			mid := &canvas.Path{}
+			mid.MoveTo(0, H/2)
+			mid.LineTo(W, H/2)
+			ctx.DrawPath(0, 0, mid)
+			bandLo, bandHi = 0.2*H, 0.8*H
+		} else {
+			ctx.SetFillGradient(gr)
+			ctx.DrawPath(0, 0, canvas.Rectangle(W, H))
+		}
+		replay := map[string]any{"W": W, "H": H, "dpmm": dpmm, "linear": linear, "start": []float64{s.X, s.Y}, "end": []float64{e.X, e.Y}, "stops": fmt.Sprint(st),
+			"radial": geo.radial, "r0": geo.r0, "r1": geo.r1, "stroke": stroke}
 		before := cv.VerifDump()
-		stopsBefore := append(canvas.Stops{}, gr.Stops...)
+		stopsBefore := append(canvas.Stops{}, (*grStops)...)
 		var img, img2 *image.RGBA
 		if msg := hc.Try(func() { img = rasterizer.Draw(cv, canvas.DPMM(dpmm), space) }); msg != "" {
 			c.Fail("panic:Draw:"+strings.SplitN(msg, "\n", 2)[0], "rasterizer.Draw panicked: "+msg, replay)
 			continue
 		}
-		mutated := fmt.Sprint(stopsBefore) != fmt.Sprint(gr.Stops)
+		mutated := fmt.Sprint(stopsBefore) != fmt.Sprint(*grStops)
 		c.Evals++
 		if after := cv.VerifDump(); after != before {
 			if mutated && !linear {
-				c.Fail("impure:SetColorSpace-mutates-stops", fmt.Sprintf("rendering in %T rewrote the gradient's stops %v -> %v", space, stopsBefore, gr.Stops), replay)
+				c.Fail("impure:SetColorSpace-mutates-stops", fmt.Sprintf("rendering in %T rewrote the gradient's stops %v -> %v", space, stopsBefore, *grStops), replay)
 			} else {
 				c.Fail("impure:canvas-changed-by-rendering", "the canvas differs after rasterizer.Draw", replay)
 			}
@@ -873,7 +981,7 @@ func (g *gen) gradients() {
 		if img2 == nil || !bytes.Equal(img.Pix, img2.Pix) {
 			c.Fail("nondeterministic:render-twice", fmt.Sprintf("rendering the same gradient canvas twice gives different images (stops rewritten by the first render: %v)", mutated), replay)
 		}
-		c.Count(fmt.Sprintf("gradient dir=%d dpmm=%.3g linear=%v", dir, dpmm, linear))
+		c.Count(fmt.Sprintf("gradient dir=%d stroke=%v dpmm=%.3g linear=%v", dir, stroke, dpmm, linear))
 		c.Distinct(fmt.Sprint(replay))
 		if !linear {
 			continue // colour maths of the non-linear spaces is left open; units are judged in linear space
@@ -885,14 +993,20 @@ func (g *gen) gradients() {
 			i, j := 1+c.Intn(wpx-2), 1+c.Intn(hpx-2)
 			px := img.RGBAAt(i, j)
 			mm := hc.P2{X: (float64(i) + 0.5) / dpmm, Y: (float64(hpx) - float64(j) - 0.5) / dpmm}
-			lo, hi := gradRange(st, s, e, mm, 1/dpmm)
+			if mm.Y < bandLo+1.5/dpmm || mm.Y > bandHi-1.5/dpmm {
+				if stroke && (mm.Y < bandLo-1.5/dpmm || mm.Y > bandHi+1.5/dpmm) && px != (color.RGBA{}) {
+					c.Fail("gradient-stroke-outside-band", fmt.Sprintf("pixel (%d,%d) = canvas (%.3g,%.3g) mm lies outside the stroked band but has colour %v", i, j, mm.X, mm.Y, px), replay)
+				}
+				continue
+			}
+			lo, hi := gradRangeT(st, geo.t(mm), geo.slope()/dpmm)
 			c.Evals++
 			if inRange(px, lo, hi, 2) {
 				continue
 			}
 			bad++
 			// hypothesis: evaluated at the pixel indices (x, y) instead of millimetres
-			lo2, hi2 := gradRange(st, s, e, hc.P2{X: float64(i), Y: float64(j)}, 1)
+			lo2, hi2 := gradRangeT(st, geo.t(hc.P2{X: float64(i), Y: float64(j)}), geo.slope())
 			if inRange(px, lo2, hi2, 2) {
 				badUnits++
 			}
